@@ -245,8 +245,7 @@ def expression_of(tgt):
         return L().visit(copy.deepcopy(e))
 
     def only_assignments(stmts):
-        return all(isinstance(x, ast.Assign) and len(x.targets) == 1 and isinstance(x.targets[0], ast.Name)
-                   and x.targets[0].id not in tgt.params for x in stmts)
+        return all(isinstance(x, ast.Assign) and len(x.targets) == 1 and isinstance(x.targets[0], ast.Name) for x in stmts)
 
     def assign_all(stmts, env):
         env = dict(env)
@@ -260,7 +259,7 @@ def expression_of(tgt):
         st = stmts[0]
         if isinstance(st, ast.Return):
             return subst_locals(st.value, env) if st.value is not None else ast.Constant(value=None)
-        if isinstance(st, ast.Assign) and len(st.targets) == 1 and isinstance(st.targets[0], ast.Name) and st.targets[0].id not in tgt.params:
+        if isinstance(st, ast.Assign) and len(st.targets) == 1 and isinstance(st.targets[0], ast.Name):
             # (re-)binding of a local: later reads see the new value (the expressions are substituted, so the order is kept)
             return build(stmts[1:], assign_all([st], env))
         if isinstance(st, ast.If) and st.body and only_assignments(st.body) and only_assignments(st.orelse):
@@ -270,6 +269,10 @@ def expression_of(tgt):
             merged = dict(env)
             for name in set(e_then) | set(e_else):
                 a0, b0 = e_then.get(name), e_else.get(name)
+                if name in tgt.params:
+                    # a parameter that is re-bound on one side keeps the argument on the other
+                    a0 = a0 if a0 is not None else ast.Name(id=name, ctx=ast.Load())
+                    b0 = b0 if b0 is not None else ast.Name(id=name, ctx=ast.Load())
                 if a0 is None or b0 is None:
                     return None           # unbound on one side
                 merged[name] = a0 if a0 is b0 or ast.dump(a0) == ast.dump(b0) else ast.IfExp(test=copy.deepcopy(t), body=a0, orelse=b0)
@@ -298,8 +301,27 @@ def _ends_with_return(stmts):
 
 
 def _fold_none_tests(e):
-    """`None is None` -> True etc. inside conditional expressions; conditional expressions with a constant test are reduced."""
+    """`None is None` -> True etc. inside conditional expressions; conditional expressions with a constant test are reduced;
+    a lambda that is applied on the spot is replaced by its body with the arguments put in."""
+    class _S(ast.NodeTransformer):
+        def __init__(self, mapping):
+            self.mapping = mapping
+
+        def visit_Name(self, n):
+            if n.id in self.mapping and isinstance(n.ctx, ast.Load):
+                return copy.deepcopy(self.mapping[n.id])
+            return n
+
     class F(ast.NodeTransformer):
+        def visit_Call(self, n):
+            self.generic_visit(n)
+            fn = n.func
+            if isinstance(fn, ast.Lambda) and not n.keywords and not any(isinstance(a, ast.Starred) for a in n.args) \
+                    and not fn.args.vararg and not fn.args.kwarg and not fn.args.kwonlyargs and len(fn.args.args) == len(n.args) \
+                    and all(isinstance(a, (ast.Name, ast.Attribute, ast.Constant)) for a in n.args):
+                return _S(dict((p.arg, a) for p, a in zip(fn.args.args, n.args))).visit(copy.deepcopy(fn.body))
+            return n
+
         def visit_IfExp(self, n):
             self.generic_visit(n)
             t = n.test
@@ -318,6 +340,9 @@ def _const_truth(t):
     if isinstance(t, ast.UnaryOp) and isinstance(t.op, ast.Not):
         v = _const_truth(t.operand)
         return None if v is None else (not v)
+    if isinstance(t, ast.Compare) and len(t.ops) == 1 and isinstance(t.left, ast.Lambda) and isinstance(t.comparators[0], ast.Constant) \
+            and t.comparators[0].value is None and isinstance(t.ops[0], (ast.Is, ast.IsNot)):
+        return isinstance(t.ops[0], ast.IsNot)          # a lambda is not None
     if isinstance(t, ast.Compare) and len(t.ops) == 1 and isinstance(t.left, ast.Constant) and isinstance(t.comparators[0], ast.Constant):
         a, b = t.left.value, t.comparators[0].value
         if isinstance(t.ops[0], ast.Is):
